@@ -46,6 +46,8 @@ import (
 
 var _ xdb.Database = (*recDB)(nil)
 
+var readersAlways bool // readers=always: every fault-free commit runs with concurrent readers (race evidence run)
+
 var tokenContract = common.HexToAddress("0x71d9cfd1b7adb1e8eb4c193ce6ffbe19b4aee0db")
 
 // ---------------------------------------------------------------------------
@@ -129,6 +131,7 @@ type runner struct {
 	vkeys      map[string]int
 	stats      map[string]int
 	scenario   int
+	violFile   *os.File
 	script     []string // human-readable steps of the current scenario (for replays)
 }
 
@@ -146,6 +149,12 @@ func (r *runner) violate(key, desc string) {
 		"scenario": r.scenario, "steps": append([]string{}, sc...)}}
 	r.violations = append(r.violations, v)
 	fmt.Printf("PROPERTY-FAILURE key=%s scenario=%d %s\n", key, r.scenario, desc)
+	if r.violFile != nil { // flushed when found: survives a time-boxed or crashed run
+		if b, err := json.Marshal(v); err == nil {
+			r.violFile.Write(append(b, '\n'))
+			r.violFile.Sync()
+		}
+	}
 }
 
 func (r *runner) step(s string) { r.script = append(r.script, s) }
@@ -180,6 +189,9 @@ type world struct {
 	ever    map[common.Hash]string
 	big     bool
 	recent  []common.Address // accounts touched so far in the block being built
+	replay     *recAdb      // the recorded calls of the block being committed (nil for corpus scripts)
+	replayBase common.Hash
+	retained   []retained // slices returned by the accessors, kept to see whether later calls mutate them
 	tainted bool // the cache holds leftovers of a failed commit: leaf callbacks on them are unobservable
 }
 
@@ -323,8 +335,58 @@ func (w *world) code() []byte {
 	}
 }
 
+// recAdb performs every state call on the live AccountDB and records it, so that the
+// very same block can be executed again in a clean process (fresh caches over a copy
+// of the store as it was before the block) and the two state roots compared.
+type recAdb struct {
+	adb *account.AccountDB
+	log []func(x *account.AccountDB)
+	ids map[int]int // live snapshot id -> id in the re-execution
+}
+
+func (ra *recAdb) do(f func(x *account.AccountDB)) {
+	ra.log = append(ra.log, f)
+	f(ra.adb)
+}
+func (ra *recAdb) SetNonce(a common.Address, n uint64) { ra.do(func(x *account.AccountDB) { x.SetNonce(a, n) }) }
+func (ra *recAdb) IncreaseNonce(a common.Address)      { ra.do(func(x *account.AccountDB) { x.IncreaseNonce(a) }) }
+func (ra *recAdb) SetData(a common.Address, k, v []byte) {
+	ra.do(func(x *account.AccountDB) { x.SetData(a, k, v) })
+}
+func (ra *recAdb) RemoveData(a common.Address, k []byte) {
+	ra.do(func(x *account.AccountDB) { x.RemoveData(a, k) })
+}
+func (ra *recAdb) SetBalance(a common.Address, v *big.Int) {
+	ra.do(func(x *account.AccountDB) { x.SetBalance(a, v) })
+}
+func (ra *recAdb) AddBalance(a common.Address, v *big.Int) {
+	ra.do(func(x *account.AccountDB) { x.AddBalance(a, v) })
+}
+func (ra *recAdb) SetCode(a common.Address, c []byte) { ra.do(func(x *account.AccountDB) { x.SetCode(a, c) }) }
+func (ra *recAdb) Suicide(a common.Address)           { ra.do(func(x *account.AccountDB) { x.Suicide(a) }) }
+func (ra *recAdb) IntermediateRoot() {
+	ra.do(func(x *account.AccountDB) { x.IntermediateRoot(true) })
+}
+func (ra *recAdb) Snapshot() int {
+	id := ra.adb.Snapshot()
+	ids := ra.ids
+	ra.log = append(ra.log, func(x *account.AccountDB) { ids[id] = x.Snapshot() })
+	return id
+}
+func (ra *recAdb) RevertToSnapshot(id int) {
+	ids := ra.ids
+	live := ra.adb
+	ra.do(func(x *account.AccountDB) {
+		if x == live {
+			x.RevertToSnapshot(id)
+		} else {
+			x.RevertToSnapshot(ids[id])
+		}
+	})
+}
+
 // mutate applies one random state mutation through the exported AccountDB API.
-func (w *world) mutate(adb *account.AccountDB, touched map[common.Address]bool) {
+func (w *world) mutate(adb *recAdb, touched map[common.Address]bool) {
 	rg := w.r.rng
 	a := w.addr()
 	if !touched[a] {
@@ -386,7 +448,7 @@ func (w *world) mutate(adb *account.AccountDB, touched map[common.Address]bool) 
 // or a reverted inner call — RevertToSnapshot.  Reverts are partial (only the
 // frame's own effects) and nested to depth 3; accounts dirtied earlier in the
 // block are re-set inside frames that are later reverted.
-func (w *world) frame(adb *account.AccountDB, touched map[common.Address]bool, depth int, budget *int) {
+func (w *world) frame(adb *recAdb, touched map[common.Address]bool, depth int, budget *int) {
 	rg := w.r.rng
 	id := adb.Snapshot()
 	w.r.step(fmt.Sprintf("%sSnapshot #%d {", strings.Repeat("  ", depth), id))
@@ -422,11 +484,42 @@ func (w *world) observe(adb *account.AccountDB, a common.Address) *acctExp {
 		return e
 	}
 	e.nonce = adb.GetNonce(a)
-	e.code = cp(adb.GetCode(a))
+	code := adb.GetCode(a)
+	e.code = cp(code)
+	w.retain(code, e.code, "GetCode", a, nil)
 	for _, k := range w.keys[a] {
-		e.data[k] = cp(adb.GetData(a, []byte(k)))
+		v := adb.GetData(a, []byte(k))
+		e.data[k] = cp(v)
+		w.retain(v, e.data[k], "GetData", a, []byte(k))
 	}
 	return e
+}
+
+// retained: the slice an accessor returned (not a copy) and what it contained then.
+type retained struct {
+	raw, was []byte
+	what     string
+}
+
+func (w *world) retain(raw, was []byte, call string, a common.Address, k []byte) {
+	if len(raw) == 0 || len(w.retained) > 20000 {
+		return
+	}
+	if w.r.rng.Chance(1, 4) {
+		w.retained = append(w.retained, retained{raw, was, fmt.Sprintf("%s(%x,%x)", call, a[:], k)})
+	}
+}
+
+// checkRetained: results handed out earlier must not change under later calls
+// (a returned slice aliasing a reused buffer or a cache entry that is rewritten).
+func (w *world) checkRetained() {
+	for _, x := range w.retained {
+		if !bytes.Equal(x.raw, x.was) {
+			w.r.violate("returned-slice-mutated-later", fmt.Sprintf("the slice returned by %s held %x and now holds %x", x.what, x.was, x.raw))
+			return
+		}
+	}
+	w.r.stats["retained_slices_checked"] += len(w.retained)
 }
 
 func sameExp(x, y *acctExp) string {
@@ -755,6 +848,7 @@ func viewOf(root common.Hash, get func(common.Hash) []byte, budget int) string {
 type blockPlan struct {
 	nmut     int
 	failAt   int  // -1: none, k: the (k+1)-th physical write of the node commit fails
+	failPutAt int // -1: none, k: the (k+1)-th batch.Put of the node commit returns an error
 	die      bool // process death after the (failed or successful) commit
 	retry    bool // after a failed commit try again in the same process
 	fork     bool // build on an older durable root
@@ -779,12 +873,15 @@ func (w *world) block(p blockPlan) {
 	}
 	r.step(fmt.Sprintf("-- block on %x: %d mutations failAt=%d die=%v retry=%v", base[:4], p.nmut, p.failAt, p.die, p.retry))
 	touched := map[common.Address]bool{}
+	ra := &recAdb{adb: adb, ids: map[int]int{}}
 	if base == emptyRoot {
 		// like the genesis block: the native-token contract exists (nonce 1, code)
 		// and the balance binding points at it, so balances live in its storage
-		adb.SetNonce(tokenContract, 1)
-		adb.SetCode(tokenContract, []byte("native token contract"))
-		adb.AddERC20Binding(common.BLANCE_NAME, tokenContract, 3, 18)
+		ra.do(func(x *account.AccountDB) {
+			x.SetNonce(tokenContract, 1)
+			x.SetCode(tokenContract, []byte("native token contract"))
+			x.AddERC20Binding(common.BLANCE_NAME, tokenContract, 3, 18)
+		})
 		touched[tokenContract] = true
 		r.step("genesis: token contract + balance binding")
 	}
@@ -792,10 +889,10 @@ func (w *world) block(p blockPlan) {
 	for budget := p.nmut; budget > 0; {
 		if res := hx.Guard(func() string {
 			if rg.Chance(3, 5) {
-				w.frame(adb, touched, 0, &budget) // a transaction, possibly failing
+				w.frame(ra, touched, 0, &budget) // a transaction, possibly failing
 			} else {
 				budget--
-				w.mutate(adb, touched)
+				w.mutate(ra, touched)
 			}
 			return ""
 		}); res != "" {
@@ -805,11 +902,13 @@ func (w *world) block(p blockPlan) {
 			r.step("!! " + res)
 		}
 		if p.interRt && rg.Chance(1, 4) {
-			adb.IntermediateRoot(true)
+			ra.IntermediateRoot()
 			r.step("IntermediateRoot(true)")
 		}
 	}
+	w.replay, w.replayBase = ra, base
 	w.commitFrom(adb, touched, p, baseExp)
+	w.replay = nil
 }
 
 // commitPrepared commits a state built on the current head (corpus scripts).
@@ -854,6 +953,18 @@ func (w *world) commitFrom(adb *account.AccountDB, touched map[common.Address]bo
 	}
 	r.stats["blocks"]++
 	tdb := w.sdb.TrieDB()
+	if w.replay != nil {
+		// process-local history: the same block executed in a clean process (fresh
+		// caches over the store as it was) must produce the same state root
+		if root2, why := w.cleanReplay(w.rec.snapshot(), w.replayBase, w.replay, tl, p.skipRead); why != "" {
+			r.stats["clean_replay_skipped"]++
+		} else {
+			r.stats["clean_replays"]++
+			if root2 != root {
+				r.violate("root-depends-on-process-history", fmt.Sprintf("the block gives state root %x in the long-lived process and %x when executed in a clean process on the same store", root[:4], root2[:4]))
+			}
+		}
+	}
 	// second reading of "readable before the commit": what the committing
 	// AccountDB itself answers after state.Commit and before the node commit
 	warm := map[common.Address]*acctExp{}
@@ -876,8 +987,24 @@ func (w *world) commitFrom(adb *account.AccountDB, touched map[common.Address]bo
 	w.rec.log = nil
 	w.rec.refused = nil
 	w.rec.failAt = p.failAt
+	w.rec.failPutAt = p.failPutAt
+	w.rec.faults = 0
+	var readers *concurrentReaders
+	if p.failAt < 0 && p.failPutAt < 0 && (rg.Chance(1, 3) || readersAlways) {
+		readers = w.startReaders(root, exp, durableBefore)
+	}
 	cerr := tdb.Commit(root, false)
+	if readers != nil {
+		if d := readers.wait(); d != "" {
+			r.violate("concurrent-read-differs", "a reader running while the node commit was in progress: "+d)
+		}
+		r.stats["concurrent_reader_runs"]++
+	}
 	w.rec.failAt = -1
+	w.rec.failPutAt = -1
+	if w.rec.faults > 0 && cerr == nil {
+		r.violate("write-error-swallowed", fmt.Sprintf("the store refused %d write(s) during the commit of %x but NodeDatabase.Commit returned nil", w.rec.faults, root[:4]))
+	}
 	writes := w.rec.log
 	w.rec.log = nil
 	w.purgeInModel()
@@ -888,6 +1015,13 @@ func (w *world) commitFrom(adb *account.AccountDB, touched map[common.Address]bo
 	for _, pw := range writes {
 		if pw.kind != "batch" {
 			r.violate("non-batch-write", "node commit issued a "+pw.kind)
+		}
+		for _, it := range pw.items {
+			// independent reference (eth_crypto, not the trie hasher): a node is stored under the Keccak-256 of its bytes
+			if h := crypto.Keccak256Hash(it.v); string(h[:]) != it.k {
+				r.violate("key-is-not-hash-of-value", fmt.Sprintf("commit of %x stored %d bytes under key %x whose Keccak-256 is %x", root[:4], len(it.v), it.k, h[:]))
+			}
+			r.stats["hash_checks"]++
 		}
 	}
 	if w.rec.deletes > 0 {
@@ -902,7 +1036,11 @@ func (w *world) commitFrom(adb *account.AccountDB, touched map[common.Address]bo
 		r.step(fmt.Sprintf("trieDB.Commit %x ok: %d batches", root[:4], len(writes)))
 	} else {
 		r.stats["failed_commits"]++
-		r.out.Emit(fmt.Sprintf("fail%s %s %d %s %s", q, hs(root), p.failAt, traceString(writes), batchString(w.rec.refused)), "err "+traceString(writes))
+		k := p.failAt
+		if p.failPutAt >= 0 {
+			k = len(writes) // a refused Put ends the commit like a refused write of the batch being filled
+		}
+		r.out.Emit(fmt.Sprintf("fail%s %s %d %s %s", q, hs(root), k, traceString(writes), batchString(w.rec.refused)), "err "+traceString(writes))
 		if !p.die && !p.retry {
 			w.tainted = true
 		}
@@ -968,6 +1106,9 @@ func (w *world) commitFrom(adb *account.AccountDB, touched map[common.Address]bo
 			if d := w.apiCheck(disk, root, exp, sample); d != "" {
 				r.violate("read-differs-after-reopen", fmt.Sprintf("root %x: %s (value read before the commit vs cold reopen)", root[:4], d))
 			}
+		}
+		if d := w.indepCheck(disk, root, warm, 25); d != "" {
+			r.violate("independent-reader-differs", fmt.Sprintf("root %x read from the store with an independent trie walk: %s", root[:4], d))
 		}
 		if d := w.apiCheck(disk, root, warm, 0); d != "" {
 			r.violate("warm-read-differs-after-reopen", fmt.Sprintf("root %x: %s (committing AccountDB after state.Commit vs cold reopen)", root[:4], d))
@@ -1079,8 +1220,19 @@ func (r *runner) scenarioState(idx int, big bool, nblocks int) {
 	r.out.Emit("reset", "ok")
 	w := newWorld(r)
 	w.big = big
+	// fork configuration: Proposal002 (journaled vs direct balance writes in AddFT/SubFT)
+	// active from genesis, or activating in the middle of the scenario
+	p002 := uint64(0)
+	if rg.Chance(1, 3) {
+		p002 = uint64(2 + rg.Intn(5))
+	}
+	setForkConfig(p002)
+	defer func() { setForkConfig(0); common.SetBlockHeight(0) }()
+	r.step(fmt.Sprintf("-- fork config: Proposal002Block=%d", p002))
+	defer w.checkRetained()
 	for b := 0; b < nblocks; b++ {
-		p := blockPlan{failAt: -1}
+		common.SetBlockHeight(uint64(b))
+		p := blockPlan{failAt: -1, failPutAt: -1}
 		switch {
 		case b == 0:
 			p.nmut = 8 + rg.Intn(30)
@@ -1102,6 +1254,10 @@ func (r *runner) scenarioState(idx int, big bool, nblocks int) {
 				p.failAt = rg.Intn(2)
 			case 3:
 				p.die = true
+			case 4:
+				p.failPutAt = rg.Intn(6)
+				p.die = rg.Bool()
+				p.retry = !p.die && rg.Bool()
 			}
 			p.fork = rg.Chance(1, 8)
 		}
@@ -1137,7 +1293,11 @@ func main() {
 		mode = "corr"
 	}
 	r := &runner{out: out, mode: mode, tier: tier, seed: seed, vkeys: map[string]int{}, stats: map[string]int{}}
+	if a["obs"] != "" && a["obs"] != "/dev/null" {
+		r.violFile, _ = os.Create(a["obs"] + ".viol")
+	}
 	only := hx.ArgInt(a, "only", -1)
+	readersAlways = a["readers"] == "always"
 
 	type sc struct {
 		big     bool
@@ -1177,6 +1337,11 @@ func main() {
 	corpusDir := os.Getenv("VERIF_CORPUS")
 	if mode == "corr" && only < 0 {
 		r.runCorpus(corpusDir)
+	}
+	if (mode == "corr" && only < 0) || a["boundary"] != "" {
+		r.rng = hx.NewRng(seed ^ 0xb0da)
+		r.scenario = -1000
+		r.scenarioBoundary()
 	}
 	if a["corpusonly"] != "" {
 		plan = nil
